@@ -82,6 +82,8 @@ structure SSt where
   iters : Array SIter
   seqs : Array Nat
   finds : Array SFind := #[]
+  /-- stored (re-runnable) Matches / BackwardMatches sequence values -/
+  mseqs : Array SFind := #[]
   /-- highest position delivered or asked about so far (C06 bound) -/
   reach : Int := -1
   /-- consult counter at the last `cons`, valid while only creation / view statements followed -/
@@ -565,6 +567,38 @@ def specStmt (v : String) (sd : SD) (st : SSt) (s : Stmt) (res : String) : Strin
           -- Fwrite first determines the end of the sequence (it must traverse to the end)
           (checkFault want res mode k, bump st top)
         | _ => (if res == hexOf want then "ok" else fail "Swrite" res (hexOf want), bump st top)
+  | .mkms h pat back =>
+    -- a stored Matches / BackwardMatches VALUE (v3): creating it consults nothing
+    match hOf h with
+    | none => ("FAIL bad handle", st)
+    | some _ =>
+      if res == "na" then ("ok", st)
+      else if res == "ok" then ("ok", { st with mseqs := st.mseqs.push ⟨h, pat, back, 0⟩ })
+      else (fail "Matches / BackwardMatches" res "ok", st)
+  | .runm q n =>
+    match st.mseqs[q]? with
+    | none => (if res == "na" then "ok" else fail "stored Matches sequence" res "na", st)
+    | some sf =>
+      match hOf sf.h with
+      | none => ("FAIL bad handle", st)
+      | some sh =>
+        if n ≤ 0 then (if res == "-" then "ok" else fail "Matches (stored sequence)" res "-", st) else
+        let fin := winFinite sd sh.win
+        let occ := occIn sd sh.win sf.pat (if fin then maxTake else (match sd.depth with | some k => k | none => 12000))
+        let top : Int := match upper sd.len sh.win with | some u => u | none => 0
+        let plen := sf.pat.length
+        let endOfMatch := fun (p : Nat) => (p + (if plen = 0 then 1 else plen) : Nat)
+        if sf.back then
+          if !fin then ("ok", st) else
+          let xs := occ.reverse.take n.toNat
+          let want := showInts (xs.map fun (x : Nat) => (x : Int)) ++ (if xs.length < n.toNat then "$" else "")
+          (if res == want then "ok" else fail "re-run of a BackwardMatches sequence obtained earlier" res want, bump st top)
+        else
+          if !(fin || occ.length ≥ n.toNat) then ("ok", st) else
+          let xs := occ.take n.toNat
+          let want := showInts (xs.map fun (x : Nat) => (x : Int)) ++ (if xs.length < n.toNat then "$" else "")
+          (if res == want then "ok" else fail "re-run of a Matches sequence obtained earlier" res want,
+            bump st (if xs.length < n.toNat then top else match xs.getLast? with | some p => (endOfMatch p : Int) - 1 | none => top))
   | .mkf h pat back =>
     match hOf h with
     | none => ("FAIL bad handle", st)
@@ -639,7 +673,7 @@ def specScriptLine (v desc stmts : String) (raw : String) : String :=
           | s :: ss, r :: rs, st, i =>
             let (verdict, st') := specStmt v sd st s r
             let pureStmt : Bool := v == "v3" && (match s with
-              | .ws _ _ | .we _ _ | .wsig _ _ | .fws _ _ | .mk _ _ | .mkseq _ | .mkseqb _ | .mkf _ _ _ | .exp _ | .zero _ | .cons => true
+              | .ws _ _ | .we _ _ | .wsig _ _ | .fws _ _ | .mk _ _ | .mkseq _ | .mkseqb _ | .mkms _ _ _ | .mkf _ _ _ | .exp _ | .zero _ | .cons => true
               | .find op _ _ n => (op == "m" || op == "bm" || op == "ffn" || op == "fln") && n ≤ 0
               | _ => false)
             let st' := if pureStmt then st' else { st' with lastCons := none }
@@ -652,7 +686,9 @@ def specScriptLine (v desc stmts : String) (raw : String) : String :=
 call must return exactly its sequential result, so every program is checked as a script of its
 own; the consult counter read at the end is checked against the union of what was asked. -/
 def specConcLine (v desc progs : String) (raw : String) : String :=
-  let desc := if desc.startsWith "X" then String.mk (desc.toList.drop 1) else desc
+  -- X: every goroutine uses its OWN Number; P: the objects created by the first statement of the
+  -- programs (the same statement in all of them) are SHARED by the goroutines
+  let desc := if desc.startsWith "X" || desc.startsWith "P" then String.mk (desc.toList.drop 1) else desc
   if raw.startsWith "!!" then s!"FAIL concurrent program did not complete: {raw}"
   else if raw == "na" then "ok"
   else match raw.splitOn " ## " with
